@@ -345,6 +345,10 @@ fn assemble(contents: &StaticSource) -> Result<Air> {
     let parser = lace::AsmParser::new(contents.src())?;
     let mut air = parser.parse()?;
     air.backpatch()?;
+    // Some errors (eg. a label which is too far away) are only found when emitting
+    for stmt in &air {
+        stmt.emit()?;
+    }
     Ok(air)
 }
 
